@@ -158,6 +158,12 @@ impl<B: Body> PreparedRequest<B> {
         let version = Version::HTTP_11;
 
         if proxy.is_some() && url.scheme() == "http" {
+            // absolute-form: the fragment and the URL's credentials are never part of the target
+            let mut url = url.clone();
+            url.set_fragment(None);
+            let _ = url.set_username("");
+            let _ = url.set_password(None);
+
             debug!("{} {} {:?}", self.method.as_str(), url, version);
 
             write!(writer, "{} {} {:?}\r\n", self.method.as_str(), url, version)?;
